@@ -1,0 +1,30 @@
+//go:build verif
+
+package extend
+
+import (
+	"volcano.sh/volcano/pkg/agent/oversubscription/policy"
+	"volcano.sh/volcano/pkg/agent/oversubscription/queue"
+	"volcano.sh/volcano/pkg/agent/utils/eviction"
+	utilnode "volcano.sh/volcano/pkg/agent/utils/node"
+	utilpod "volcano.sh/volcano/pkg/agent/utils/pod"
+	"volcano.sh/volcano/pkg/config"
+	"volcano.sh/volcano/pkg/resourceusage"
+)
+
+// NewExtendResourceForVerif builds the extend policy exactly as
+// NewExtendResource does, with the pod / node / usage getters and the ratio
+// given by the caller instead of being derived from config and the metric
+// collector manager.
+func NewExtendResourceForVerif(cfg *config.Configuration, getPods utilpod.ActivePods, getNode utilnode.ActiveNode,
+	evictor eviction.Eviction, q *queue.SqQueue, usage resourceusage.Getter, ratio int) policy.Interface {
+	return &extendResource{
+		config:      cfg,
+		getPodsFunc: getPods,
+		getNodeFunc: getNode,
+		evictor:     evictor,
+		queue:       q,
+		usageGetter: usage,
+		ratio:       ratio,
+	}
+}
